@@ -37,6 +37,9 @@ THEOREMS = [
     "PyTrie.Props.Free.lockstep_op_batch",
     "PyTrie.Props.Free.cache_keys_unique_begin",
     "PyTrie.Props.Free.cache_keys_unique_op",
+    "PyTrie.Props.Free.view_complete_on_entry",
+    "PyTrie.Props.Free.view_complete_batch_op",
+    "PyTrie.Props.Free.complete_after_commit",
 ]
 RULE = ("prior history, then squash_changes blocks with every exit kind: normal, an exception after n of the "
         "block's operations (every n), and - for non-pruning tries - the n-th database write of the commit failing "
